@@ -44,11 +44,19 @@ def cases(tier, rng):
     thorough = tier == "thorough"
     cs = []
     doms = [domain(n, rng) for n in ([3, 11, 40, 100, 180] if not thorough else [1, 3, 11, 25, 40, 77, 100, 150, 180, 200])]
-    mtus = {}   # filled by a first pass of mtu cases; the payload cases use the formula the client uses
+    # the fragment size is the one the implementation computes for the domain and codec (asked from the harness before the cases are
+    # made): "payloads up to the upstream fragment size it computed". The formula below is only the fall-back when the harness is absent.
+    mtus = impl_mtus([(codec, dom) for codec in CODECS for dom in doms])
+    sweep_dom = {codec: rng.choice(doms[:4]) for codec in CODECS}
     for codec in CODECS:
         for dom in doms:
             cs.append({"line": "mtu %d %s" % (codec, hx(dom)), "key": None, "tags": {"src": "mtu", "codec": codec, "dom": len(dom), "cmd": "mtu"}})
-            m = upstream_mtu(len(dom), codec)
+            m = mtus.get((codec, dom), upstream_mtu(len(dom), codec))
+            if thorough or dom == sweep_dom[codec]:
+                # every payload length 0..fragment size (each body length meets every dot position of the name layout)
+                for n in range(0, m + 1):
+                    data = bytes((i * 29 + n) & 255 for i in range(n))
+                    cs.append(mk(codec, 10, dom, "pkt 7 %d %d %d %s" % (n & 0xFFFF, 1 if n else 0, (3 * n) & 0xFFFF, hx(data)), "pkt-sweep", n > 0))
             sizes = sorted(set([0, 1, 2] + [max(0, m + d) for d in (-2, -1, 0)] + [rng.range(0, max(1, m)) for _ in range(3 if not thorough else 10)]))
             for n in sizes:
                 uid, ack, seq = rng.choice(UIDS), rng.choice(SEQS), rng.choice(SEQS)
@@ -86,6 +94,23 @@ PATTERNS = {
     86: [b"aA-Aaahhh-Drink-mal-ein-J\xe4germeister-", bytes([97, 65] + list(range(0xd0, 0xfe)))],
 }
 RATIO = {84: (8, 5), 83: (4, 3), 85: (4, 3), 87: (5, 4), 88: (1231, 1000), 86: (8, 7), 82: (1, 1), 89: (16, 15)}
+
+
+def impl_mtus(pairs):
+    import os
+    from vlib import core
+    out = {}
+    try:
+        if not os.path.exists(core.harness_bin()):
+            return out
+        res = core.run_lines(core.harness_bin(), ["mtu %d %s" % (c, hx(d)) for c, d in pairs], timeout=120)
+        for (c, d), r in zip(pairs, res):
+            f = r.split()
+            if len(f) == 1 and f[0].isdigit():
+                out[(c, d)] = int(f[0])
+    except Exception:
+        pass
+    return out
 
 
 def upstream_mtu(dlen, codec):
